@@ -185,7 +185,10 @@ def rule_generator_limit(ctx, rule):
             o2 = pr.path_avoiding(gcfg, pr.body_entries(gcfg, lp), [gcfg.node(ys[0])], {gcfg.node(stops[0])} | pr.outside_loop(gcfg, lp)) is None
             rl = [s for s in g.node.body if isinstance(s, ast.Assign) and norm(s.targets[0]) == g.params[2] and 'resolve_limit' in norm(s.value)]
             rebinds = [s for s in q.assigns(ctx, g, g.params[2]) if s not in decs and s not in rl]
-            okg = o1 and o2 and len(rl) == 1 and not rebinds
+            # order within one iteration: test, yield, then decrement (decrementing first stops one entry early)
+            o3 = gcfg.find_path([gcfg.node(decs[0])], {gcfg.node(stops[0]), gcfg.node(ys[0])},
+                                avoiding={gcfg.node(lp)} | pr.outside_loop(gcfg, lp)) is None
+            okg = o1 and o2 and o3 and len(rl) == 1 and not rebinds
     ctx.check(okg, rule, ctx.key(g, None, 'generator stops at limit'),
               'the tx-number generator tests the remaining limit before each yield and decrements it once per yielded entry, across rows',
               'the tx-number generator does not stop after exactly `limit` entries across rows (limit applied per row or not at all)',
